@@ -130,6 +130,8 @@ POLICIES = {
     "short": (1, 0.5), "long": (2, 120.0),
     # degenerate but constructible: a message that has expired the moment it is accepted
     "zero": (1, 0.0), "neg": (2, -5.0),
+    # a patient application: an hour
+    "hour": (2, 3600.0),
 }
 
 
